@@ -266,8 +266,9 @@ def main():
         muts = [m for m in muts if (m["file"], m["line"], m["col"], m["new"]) in want]
     if a.stride > 1:
         muts = muts[:: a.stride]
-    if a.max:
-        muts = muts[: a.max]
+    if a.max and len(muts) > a.max:  # evenly spaced subset (deterministic)
+        step = -(-len(muts) // a.max)
+        muts = muts[::step][: a.max]
     print(f"{a.prop}: {len(muts)} mutants over {len(TARGETS[a.prop])} functions", file=sys.stderr)
     if a.list:
         for m in muts:
